@@ -22,6 +22,65 @@ CHECKS = {
     ),
 }
 
+
+DESER_NOTE = ("Trusted: Coq kernel; the hand-written model of deserialization/methods.py + __init__.py (coq/Deser/Model.v) whose "
+              "faithfulness is checked on every run by differential correspondence (implementation vs model evaluated by vm_compute); "
+              "floats restricted to the exact dyadic fragment q/4 (+nan/inf, ints up to 2^53 when converted), regex patterns to literal "
+              "prefixes, dict keys to strings; Python's typing introspection / dataclass machinery is exercised (generated source) "
+              "but not modelled. Not in the model yet: validators, conversions, flattened / pattern / additional-properties fields, "
+              "discriminators, init=False/InitVar fields. No axioms.")
+
+CHECKS.update({
+    "C01": dict(
+        text="Coq theorem C01_compiled_deserializer_is_the_data_model: for every universe of classes/enums, options (strict), root "
+             "schema, type of the modelled grammar at any depth and datum (incl. non-JSON objects), exec(compile t) d agrees with a "
+             "declarative specification spec t d (accept <-> conform, value = typed image, never a crash), proved by induction on "
+             "fuel/type with one lemma per compiled strategy (check-only methods return the data, SimpleObjectMethod = ObjectMethod "
+             "incl. the len(data) != fields_count shortcut, by-class union dispatch, Optional). Tie: both model and spec are "
+             "evaluated inside Coq on the cases the implementation ran (values with runtime classes, full error lists).",
+        note=DESER_NOTE, technique="Coq proof (compiler correctness of the method tree vs declarative data model) + differential correspondence",
+        design_ref="DESIGN.md §4 C01"),
+    "C02": dict(
+        text="Coq theorems: the children of a rejection are EXACTLY the failing elements under their own index "
+             "(C02_array_children_exact / C02_list_rejection_exact), siblings never hide each other, no entry at a valid "
+             "location, `errors` lists own messages first then children in sorted key order (insertion sort proved sorted + "
+             "permutation). Tie: the FULL errors list of the implementation is compared with the model's on every case; "
+             "model-free checks (locs exist, determinism, order, per-element and per-field independence).",
+        note=DESER_NOTE, technique="Coq proof (exact characterisation of error bookkeeping) + differential correspondence on full error lists",
+        design_ref="DESIGN.md §4 C02"),
+    "C03": dict(
+        text="Coq theorem C03_never_crashes (strict options): for every datum including objects of non-JSON classes, NaN/inf, "
+             "huge ints, at any depth, the compiled tree returns a value or a ValidationError, never a crash; the default coercer "
+             "is total (C03_coercer_total). Partial: crash-freedom of whole trees under coerce=True, input mutation and "
+             "RecursionError are decided by the correspondence / direct observation of the implementation only.",
+        note=DESER_NOTE + " A functional model cannot exhibit in-place mutation nor stack exhaustion.",
+        technique="Coq proof (totality / no-crash corollary of the main theorem) + malformed-input differential correspondence",
+        design_ref="DESIGN.md §4 C03"),
+    "C08": dict(
+        text="Coq theorems: two option records differing only by no_copy give the same accepted value / both reject "
+             "(C08_no_copy_never_changes_the_result), check-only methods return exactly the data, the data model ignores the "
+             "optimisation options. Tie: each case is re-run with no_copy flipped, via the precomputed method and with "
+             "override_dataclass_constructors flipped; container identity vs the input is observed. Serialization-side options "
+             "(check_type, PassThroughOptions) are not covered yet.",
+        note=DESER_NOTE, technique="Coq proof (option-independence of the specification + main theorem) + metamorphic correspondence",
+        design_ref="DESIGN.md §4 C08"),
+    "C13": dict(
+        text="Coq theorems: whatever strategy was compiled (Optional, dispatch by JSON class incl. the int->float fallback, "
+             "sequential), a union's outcome is that of the first alternative that does not reject "
+             "(C13_union_is_first_accepting_alternative, C13_dispatch_by_class_is_sound). Tie: unions of 2-4 alternatives are "
+             "compared with the implementation's own per-alternative outcomes and with the model. Serialization of unions, "
+             "discriminators and TaggedUnion are not covered yet.",
+        note=DESER_NOTE, technique="Coq proof (strategy equivalence) + metamorphic try-each check + differential correspondence",
+        design_ref="DESIGN.md §4 C13"),
+    "C14": dict(
+        text="Coq theorems against the word table regenerated from coercion.py on every run (C14_table_is_the_documented_one), "
+             "coercion only converts primitives to primitives of the expected class, the coerced datum is still checked, refused "
+             "coercion = ValidationError; monotonicity proved for primitive types (partial), for every other type by the "
+             "strict-vs-coerce correspondence and custom coercer probes.",
+        note=DESER_NOTE, technique="Coq proof over regenerated table (translator) + strict/coerce differential correspondence",
+        design_ref="DESIGN.md §4 C14"),
+})
+
 NOT_YET = {}
 
 
